@@ -202,6 +202,34 @@ func init() {
 		return "ok " + toHex(buf.Bytes())
 	}
 	register("bundle.write", func(args []string) string { return write(args, false) })
+	// destination that is itself a *bundle.CountingWriter which has already counted a prefix; the bundle is written twice
+	// through it: both times the returned count and the trailing length must describe this bundle alone
+	register("bundle.write.cw", func(args []string) string {
+		b, _ := parseBundle(args)
+		var buf bytes.Buffer
+		cw := bundle.NewCountingWriter(plainWriter{&buf})
+		cw.Write([]byte("0123456789abcdef"))
+		n1, err := b.WriteTo(cw)
+		if err != nil {
+			return "err"
+		}
+		first := append([]byte{}, buf.Bytes()[16:]...)
+		if n1 != int64(len(first)) {
+			return fmt.Sprintf("count-mismatch %d %d", n1, len(first))
+		}
+		n2, err := b.WriteTo(cw)
+		if err != nil {
+			return "err-second"
+		}
+		second := buf.Bytes()[16+len(first):]
+		if n2 != int64(len(second)) {
+			return fmt.Sprintf("count-mismatch-second %d %d", n2, len(second))
+		}
+		if !bytes.Equal(first, second) {
+			return "second-write-differs " + toHex(second)
+		}
+		return "ok " + toHex(first)
+	})
 	register("bundle.write.plain", func(args []string) string { return write(args, true) })
 	register("bundle.read", func(args []string) string {
 		b, err := bundle.Read(bytes.NewReader(ofHex(args[0])))
